@@ -44,6 +44,25 @@ ROOTS = [
 ]
 
 
+# Sub-identifiers at the boundaries of their base-128 encoding (127 | 128,
+# 16383 | 16384) and pairs whose numeric order differs from the order of their
+# encoded octets (300 = 82 2c, 16385 = 81 80 01), next to one another in a
+# subtree and as roots.
+UM = [
+    (1, 2, 9),
+    (1, 3, 2, 127),
+    (1, 3, 2, 128),
+    (1, 3, 2, 300),
+    (1, 3, 2, 16383),
+    (1, 3, 2, 16384),
+    (1, 3, 2, 16385),
+    (1, 3, 300, 1),
+    (1, 3, 16384, 1),
+    (1, 5, 8),
+]
+ROOTS_M = [(1, 3, 2), (1, 3, 300), (1, 3, 16384), (1, 3, 129)]
+
+
 def is_prefix(a, b):
     return len(a) <= len(b) and b[: len(a)] == a
 
